@@ -102,3 +102,23 @@ def run(ctx):
     dec = [(i, s, pe, rve) for (i, s, pe, rve) in aa.field_writes() if show(pe) == 'self.slow_start_ack_count']
     ctx.ob(len(dec) == 1 and 'SubWithOverflow operation.slow_start_ack_value' in show(dec[0][3]) and guarded_any(aa, dec[0][0], [r'^\(operation\.slow_start_ack_value <= self\.slow_start_ack_count\)$']),
            'the decrement subtracts the operation\'s own value and cannot underflow', 'ss|decrement-guard', loc=aa.loc())
+
+    # ---- added after the mutation sweep
+    d0 = dec[0][0] if dec else None
+    ctx.ob(d0 is not None and guarded_any(aa, d0, [r'^!\(self\.config\.post_reconnect_queue_drain_policy != PostReconnectQueueDrainPolicy::OneAtATime\{\}\)$', r'^\(self\.config\.post_reconnect_queue_drain_policy == PostReconnectQueueDrainPolicy::OneAtATime\{\}\)$'])
+           and guarded_any(aa, d0, [r'^\(self\.state == ProtocolStateType::Connected\{\}\)$']) and guarded_any(aa, d0, [r'^!\(operation\.slow_start_ack_value == 0\)$', r'^\(0 < operation\.slow_start_ack_value\)$']),
+           'the interrupted count is decremented only under the one-at-a-time policy, while Connected, for an operation that was counted (value != 0)', 'ss|decrement-conditions', loc=aa.loc())
+    for pats, what in (([r'^\(self\.config\.post_reconnect_queue_drain_policy == PostReconnectQueueDrainPolicy::OneAtATime\{\}\)$', r'^\(self\.state == ProtocolStateType::Connected\{\}\)$', r'^!\(operation\.slow_start_ack_value == 0\)$'], 'dec'),):
+        es = None
+        for pt in pats:
+            c_ = prims.edge_nodes_matching(aa, [pt])
+            es = c_ if es is None else [e for e in c_ if any(aa.dominates(p_, e) for p_ in es)]
+        ctx.ob(bool(es) and d0 is not None and all(d0 in aa.reach([e]) for e in es), 'completeness: under those three conditions the decrement (or the invariant panic) is always reached', 'ss|decrement-complete', loc=aa.loc())
+    ra_ = prims.rets_after(hp, [r'^!HashMap::is_empty\(self\.pending_publish_operations\)$'])
+    rb_ = prims.rets_after(hp, [r'^HashMap::is_empty\(self\.pending_publish_operations\)$'])
+    okp = ra_ == {'True'} and rb_ == {'Not(HashMap::is_empty(self.pending_non_publish_operations))'}
+    if not okp and rb_ is not None:
+        # spelled with an explicit second test
+        okp = ra_ == {'True'} and prims.rets_after(hp, [r'^HashMap::is_empty\(self\.pending_publish_operations\)$', r'^!HashMap::is_empty\(self\.pending_non_publish_operations\)$']) == {'True'} and \
+            prims.rets_after(hp, [r'^HashMap::is_empty\(self\.pending_publish_operations\)$', r'^HashMap::is_empty\(self\.pending_non_publish_operations\)$']) == {'False'}
+    ctx.ob(okp, 'has_pending_ack is true exactly when either ack table is non-empty (unacked publishes non-empty -> %s; else -> %s)' % (sorted(ra_ or []), sorted(rb_ or [])), 'pred|pendingack-table', loc=hp.loc())
